@@ -131,6 +131,7 @@ def run(module, tier, seed, nproc=16):
     except build.BuildError as e:
         return _build_failure(module, main, e, t0)
     merged = Ctx(prop, tier, seed, deadline)
+    merged.extra.update(main.extra)
     results = []
     if nproc > 1 and len(shards) > 1:
         with multiprocessing.get_context("fork").Pool(min(nproc, len(shards)), _init_worker,
